@@ -56,6 +56,9 @@ def execute_step(step: Dict[str, Any], base: Path, idx: int, mkdtemps: List[str]
                 p.symlink_to(t)
         elif f.get("exists", True):
             p.write_text("data")
+        if f.get("relative"):
+            os.chdir(base)
+            p = Path(os.path.relpath(p, base))
         files.append(str(p) if f.get("as", "str") == "str" else p)
     arg: Any = files
     if step.get("single"):
@@ -69,6 +72,7 @@ def execute_step(step: Dict[str, Any], base: Path, idx: int, mkdtemps: List[str]
         kw["docker_image"], kw["docker_tag"] = step["image"].rsplit(":", 1)
     if outdir is not None:
         kw["output_directory"] = outdir
+    obs["cwd"] = os.getcwd()
     pow_.CALLS.clear()
     pow_.CONTAINERS_STARTED[0] = 0
     pow_.SCRIPT.clear()
@@ -144,6 +148,9 @@ def file_lists(R) -> List[Dict[str, Any]]:
     out.append(("glob_chars_alone", [{"dir": 0, "name": "part[0-9]*.root"}], False, "ok"))
     out.append(("glob_question_mark", [{"dir": 0, "name": "a?.root"}, {"dir": 0, "name": "ab.root"}, {"dir": 0, "name": "e.root"}], False, "ok"))
     out.append(("blank_in_name", [{"dir": 0, "name": "c d.root"}], False, "ok"))
+    # paths given relative to the working directory (the usual way to name a local file)
+    out.append(("relative_paths", [{"dir": 0, "name": "a.root", "relative": True}, {"dir": 0, "name": "b.root", "relative": True}], False, "ok"))
+    out.append(("relative_single", [{"dir": 0, "name": "a.root", "relative": True, "as": "path"}], True, "ok"))
     out.append(("different_dirs", [{"dir": 0, "name": "a.root"}, {"dir": 1, "name": "b.root"}], False, "different_dirs"))
     out.append(("different_dirs_late", [{"dir": 0, "name": "a.root"}, {"dir": 0, "name": "b.root"}, {"dir": 2, "name": "e.root"}], False, "different_dirs"))
     out.append(("missing_file", [{"dir": 0, "name": "a.root"}, {"dir": 0, "name": "nope.root", "exists": False}], False, "missing"))
@@ -260,8 +267,9 @@ def judge_step(step: Dict[str, Any], obs: Dict[str, Any]) -> Optional[str]:
     for point, mode in (("/scripts", "ro"), ("/results", "rw")):
         if point not in vols or vols[point][0] != sd or (len(vols[point]) > 2 and vols[point][2] != mode) or (len(vols[point]) < 3 and mode == "ro"):
             return f"mount {point}: {vols.get(point)} (package directory {sd}, expected mode {mode})"
-    datadir = str(Path(obs["files"][0]).parent)
-    if "/data" not in vols or vols["/data"][0] != datadir or len(vols["/data"]) < 3 or vols["/data"][2] != "ro":
+    # the directory that holds the inputs, as an absolute path (docker takes any other volume source for the name of a volume)
+    datadir = os.path.normpath(str(Path(obs.get("cwd") or ".") / Path(obs["files"][0]).parent))
+    if "/data" not in vols or os.path.normpath(vols["/data"][0]) != datadir or not os.path.isabs(vols["/data"][0]) or len(vols["/data"]) < 3 or vols["/data"][2] != "ro":
         return f"mount /data: {vols.get('/data')} expected ({datadir}, ro)"
     extra = sorted((v[0], v[1]) for p, v in vols.items() if p not in ("/scripts", "/results", "/data"))
     if extra != sorted(CACHE[step["cls"]]):
